@@ -444,7 +444,8 @@ The what argument tells us what sort of state is expected (allowed values are de
             raise RuntimeError("Programming error: attempt to use stack \"%s\"" % what)
 
         if what == "env":
-            current = os.environ.copy()
+            # the aliases are part of what a setup changes: a failed dependency must not leave them behind
+            current = (os.environ.copy(), self.aliases.copy(), self.oldAliases.copy())
         elif what == "vro":
             current = self.getPreferredTags()
             if value:
@@ -470,7 +471,7 @@ The what argument tells us what sort of state is expected (allowed values are de
             raise RuntimeError("Programming error: stack \"%s\" doesn't have an element to pop" % what)
 
         if what == "env":
-            os.environ = value
+            os.environ, self.aliases, self.oldAliases = value
         elif what == "vro":
             self.setPreferredTags(value)
         elif what == "verbose":
